@@ -11,6 +11,7 @@ fam in kll | req | quant ; ty in f32 | f64 | i64 | str.  Constants come from DSG
 -/
 import DSModel.Wire.KllCode
 import DSModel.Wire.QuantilesCode
+import DSModel.Wire.ReqCode
 import DSModel.DriverLoop
 import DSModel.Util
 open DS DS.Wire
@@ -41,10 +42,21 @@ def decodeQuant (ty : ItemType) (b : Bytes) : Option Decoded :=
            size := Quantiles.serializedSize sd c img, rest := r.length,
            fields := fieldsLine (Quantiles.fields sd (ty == .str) c img) }
 
+def decodeReq (ty : ItemType) (b : Bytes) : Option Decoded :=
+  let sd := ty.serde
+  let c := Req.codeCfg
+  match Req.decode sd c b with
+  | none => none
+  | some (img, r) =>
+    some { content := (Req.project ty img).line, reenc := Req.encode sd c img,
+           size := Req.serializedSize sd c img, rest := r.length,
+           fields := fieldsLine (Req.fields sd (ty == .str) img) }
+
 def decodeKind (fam : String) (ty : ItemType) (b : Bytes) : Option Decoded :=
   match fam with
   | "kll" => decodeKll ty b
   | "quant" => decodeQuant ty b
+  | "req" => decodeReq ty b
   | _ => none
 
 def tyName : ItemType → String
